@@ -71,6 +71,8 @@ pub struct Profile {
     pub p_srv_dup: u64,
     pub p_srv_think: u64,
     pub p_srv_hostile: u64,
+    /// server replies carrying further valid attributes of other kinds (TURN, ICE, discovery, mobility)
+    pub p_srv_more: u64,
     pub p_retry_ignore: u64,
     pub p_retry_delay: u64,
     /// weights of injection kinds: late-dup replay, unknown-id response, request-class, indication,
@@ -126,6 +128,7 @@ impl Profile {
             p_srv_dup: 40,
             p_srv_think: 60,
             p_srv_hostile: 0,
+            p_srv_more: 120,
             p_retry_ignore: 100,
             p_retry_delay: 200,
             inj_w: [3, 2, 1, 2, 1, 1, 2, 1, 0, 3],
@@ -1336,6 +1339,9 @@ impl<'a> World<'a> {
                         if rng.chance(1, 4) { " hrealm" } else { "" }
                     ));
                 }
+                if rng.chance(p.p_srv_more, 1000) {
+                    parts.push(format!("more={}", rng.below(1 << 24)));
+                }
                 if rng.chance(p.p_srv_dup, 1000) {
                     parts.push(format!("dup={}", rng.range(1, 2)));
                 }
@@ -1369,6 +1375,7 @@ impl<'a> World<'a> {
                         "dup" => "srv_dup_response".to_string(),
                         "think" => "srv_slow".to_string(),
                         "extra" => "srv_splice".to_string(),
+                        "more" => "srv_more_attribute_kinds".to_string(),
                         "algs" | "anon" | "nonce" => "srv_offer_change".to_string(),
                         "norealm" | "nononce" | "noerr" | "noalgs" => format!("srv_{}", k),
                         _ => continue,
